@@ -10,6 +10,8 @@ from BPTK_Py import Model, Agent, DataCollector, SimultaneousScheduler, Event, D
 HLEN = int(os.environ.get("C11_HLEN", "2"))
 ELEN = int(os.environ.get("C11_ELEN", "2"))
 FIRST = int(os.environ.get("C11_FIRST", "-1"))
+SECOND = int(os.environ.get("C11_SECOND", "-1"))
+ESTEP = int(os.environ.get("C11_ESTEP", "-1"))
 MAXID = 3
 NSTEPS = 5
 
@@ -33,7 +35,8 @@ class _M(Model):
 def new_model(dt=1):
     m = _M(starttime=0, stoptime=NSTEPS, dt=dt, scheduler=SimultaneousScheduler(), data_collector=DataCollector())
     m.register_agent_factory("A", lambda agent_id, model, properties: _Rec(agent_id, model, properties, "A"))
-    m.log = []
+    m.run_specs(0, NSTEPS, dt)       # keeps dt an int (Model.__init__ turns it into a float; symbolic int-float
+    m.log = []                       # mixing makes the engine's z3 queries time out)
     m.now = None
     return m
 
@@ -53,14 +56,7 @@ def run_script(hist, sends):
                 m.configure_agents([{"name": "A", "count": 2}])
     except Exception as ex:  # noqa
         return "history raised %r" % (ex,)
-    live = [a.id for a in m.agents]
-    expected = {}            # agent id -> list of (name, time) in handling order
-    for idx, (st, rid, dl) in enumerate(sends):
-        name = "e%d" % idx
-        if rid in live:
-            when = st + (dl if dl > 0 else 0)
-            if when < NSTEPS:
-                expected.setdefault(rid, []).append((when, idx, name))
+    live = [a.id for a in m.agents]            # concrete ints (issued by the model's counter)
     crashed = None
     for s in range(NSTEPS):
         for idx, (st, rid, dl) in enumerate(sends):
@@ -75,33 +71,47 @@ def run_script(hist, sends):
         except Exception as ex:  # noqa
             crashed = "step %d raised %r" % (s, ex)
             break
-    got = {}
+    # no dictionaries keyed by symbolic values here: hashing would make CrossHair realise them
     for (aid, name, t) in m.log:
-        got.setdefault(aid, []).append((t, name))
-    sent_at = {"e%d" % i: (s[0], i) for i, s in enumerate(sends)}
-    for aid, lst in got.items():
-        want = [(w, n) for (w, i, n) in expected.get(aid, [])]
-        for item in lst:
-            if item not in want:
-                return "agent %d handled %r which was not addressed to it at that time (live ids %r)" % (aid, item, live)
-        if len(lst) != len(set(lst)):
-            return "agent %d handled an event twice: %r" % (aid, lst)
-        if crashed is None and sorted(lst) != sorted(want):
-            return "agent %d handled %r, expected %r (live ids %r)" % (aid, lst, sorted(want), live)
+        if aid not in live:
+            return "a non-existing agent %r handled %s" % (aid, name)
+    for aid in live:
+        lst = [(t, name) for (a, name, t) in m.log if a == aid]
+        want = []
+        for idx, (st, rid, dl) in enumerate(sends):
+            if rid == aid:
+                when = st + (dl if dl > 0 else 0)
+                if when < NSTEPS:
+                    want.append((when, idx, "e%d" % idx))
+        for (t, name) in lst:
+            ok = False
+            for (w, i, n) in want:
+                if n == name and w == t:
+                    ok = True
+            if not ok:
+                return "agent %d handled %r which was not addressed to it at that time (live ids %r)" % (aid, (t, name), live)
+        names = [name for (t, name) in lst]
+        for x in range(len(names)):
+            for y in range(x + 1, len(names)):
+                if names[x] == names[y]:
+                    return "agent %d handled an event twice: %r" % (aid, lst)
+        if crashed is None:
+            for (w, i, n) in want:
+                if n not in names:
+                    return "agent %d never handled %s due at step %d: handled %r, expected %r (live ids %r)" % (
+                        aid, n, w, lst, [(a_, c_) for (a_, b_, c_) in want], live)
         # order: events sent in the same step (and arriving in the same step) keep their sending order
         for x in range(len(lst)):
             for y in range(x + 1, len(lst)):
                 (tx, nx), (ty, ny) = lst[x], lst[y]
+                ix, iy = int(nx[1:]), int(ny[1:])
                 if tx > ty:
                     return "agent %d handled %r before %r (time order)" % (aid, lst[x], lst[y])
-                if tx == ty and sent_at[nx][0] == sent_at[ny][0] and sent_at[nx][1] > sent_at[ny][1]:
+                if tx == ty and sends[ix][0] == sends[iy][0] and ix > iy:
                     return "agent %d handled %s before %s although both were sent in step %d in the opposite order" % (
-                        aid, nx, ny, sent_at[nx][0])
+                        aid, nx, ny, sends[ix][0])
     if crashed is not None:
         return "crash: " + crashed
-    for aid, lst in expected.items():
-        if aid not in got:
-            return "agent %d never handled %r" % (aid, lst)
     return None
 
 
@@ -112,17 +122,53 @@ def _valid(hist, sends):
             and (FIRST < 0 or (len(hist) > 0 and hist[0][0] == FIRST)))
 
 
-def _routing(hist: List[Tuple[int, int]], sends: List[Tuple[int, int, int]]) -> bool:
+def _mk(h0, a0, h1, a1, h2, a2, s0, r0, d0, s1, r1, d1, s2, r2, d2):
+    hist = [(h0, a0), (h1, a1), (h2, a2)][:HLEN]
+    sends = [(s0, r0, d0), (s1, r1, d1), (s2, r2, d2)][:ELEN]
+    return hist, sends
+
+
+def _pre(h0, a0, h1, a1, h2, a2, s0, r0, d0, s1, r1, d1, s2, r2, d2):
+    hs = [(h0, a0), (h1, a1), (h2, a2)]
+    ss = [(s0, r0, d0), (s1, r1, d1), (s2, r2, d2)]
+    for i in range(3):
+        h, a = hs[i]
+        if i < HLEN:
+            if not (0 <= h <= 2 and 0 <= a <= MAXID):
+                return False
+        elif h != 0 or a != 0:
+            return False
+    for i in range(3):
+        st, r, d = ss[i]
+        if i < ELEN:
+            if not (0 <= st <= 2 and 0 <= r <= MAXID + 1 and -1 <= d <= 2):
+                return False
+        elif st != 0 or r != 0 or d != 0:
+            return False
+    if FIRST >= 0 and HLEN > 0 and h0 != FIRST:
+        return False
+    if SECOND >= 0 and HLEN > 1 and h1 != SECOND:
+        return False
+    if ESTEP >= 0 and ELEN > 0 and s0 != ESTEP:
+        return False
+    return True
+
+
+def _routing(h0: int, a0: int, h1: int, a1: int, h2: int, a2: int, s0: int, r0: int, d0: int,
+             s1: int, r1: int, d1: int, s2: int, r2: int, d2: int) -> bool:
     """
-    pre: _valid(hist, sends)
+    pre: _pre(h0, a0, h1, a1, h2, a2, s0, r0, d0, s1, r1, d1, s2, r2, d2)
     post: _
     """
+    hist, sends = _mk(h0, a0, h1, a1, h2, a2, s0, r0, d0, s1, r1, d1, s2, r2, d2)
     return run_script(hist, sends) is None
 
 
-def _routing_twin(hist: List[Tuple[int, int]], sends: List[Tuple[int, int, int]]) -> bool:
+def _routing_twin(h0: int, a0: int, h1: int, a1: int, h2: int, a2: int, s0: int, r0: int, d0: int,
+                  s1: int, r1: int, d1: int, s2: int, r2: int, d2: int) -> bool:
     """
-    pre: _valid(hist, sends)
+    pre: _pre(h0, a0, h1, a1, h2, a2, s0, r0, d0, s1, r1, d1, s2, r2, d2)
     post: not _
     """
+    hist, sends = _mk(h0, a0, h1, a1, h2, a2, s0, r0, d0, s1, r1, d1, s2, r2, d2)
     return run_script(hist, sends) is None
